@@ -115,6 +115,13 @@ def load_known():
 
 def finish(rep, level="model_checking"):
     """write evidence, print verdict lines, return exit code"""
+    # translation validation of the shared environment model against real torch / numpy (every run, seeded)
+    try:
+        from checks import modelval
+        rep.extra["model_validation_cases"] = modelval.validate(rep.seed)
+        rep.validated += rep.extra["model_validation_cases"]
+    except Exception as e:
+        rep.inconclusive.append({"error": "environment-model validation: %s: %s" % (type(e).__name__, e)})
     known = [k for k in load_known() if k["property"] == rep.prop and k.get("status") == "known"]
     new, listed = [], []
     confirmed_keys = {v.get("key") for v in rep.violations if v.get("reproduced") is True}
